@@ -16,7 +16,7 @@ from chk_lazy import tlc_expect_violation
 
 RULE = ("one case = one plug-in run on one corpus file (feature-matrix and atomic one-feature schemas, proto2 and proto3) for one flavour "
         "(gogo: apiversion v1, google-v2: apiversion v2) and one option set (default, filepermessage=true, enableunsafedecode=true; specialname "
-        "where the schema needs it): recorded = errors of two runs, file names, per-file hashes of both runs, go/parser result, go build result; "
+        "where the schema needs it): recorded = errors of two runs, file names, per-file hashes of both runs, the same for a third run in which the file is the second of a two-file request, go/parser result, go build result; "
         "distinct = distinct (file, flavour, option set); non-trivial = the file has at least one message")
 
 
@@ -27,6 +27,10 @@ def check(prop, tier, seed, replay_path=None, selftest=False, keep=False):
     try:
         mcs = [V.tlc_mc(scratch, "MCGenerator", "MCGenerator.cfg")]
         expected = [tlc_expect_violation(scratch, "MCGenerator", "MCGenerator_injective.cfg", "InjectiveNaming")]
+        # the per-file loop of the plug-in process: as found every output is rendered with its own file's helpers; caching the parsed
+        # templates (bound to the first file's helpers) is the expected violation
+        mcs.append(V.tlc_mc(scratch, "GenLoop", "GenLoop.cfg"))
+        expected.append(tlc_expect_violation(scratch, "GenLoop", "GenLoop_cacheonce.cfg", "PerFile"))
         cdir, entries, drv = corpus.build(scratch)
         tf = scratch.path("c16.ndjson")
         events = []
@@ -41,6 +45,7 @@ def check(prop, tier, seed, replay_path=None, selftest=False, keep=False):
                             "msgs": [{"short": m["short"], "lower": m["short"].lower()} for m in e["messages"]]},
                     "o": {"err1": e["gen_err"][:300], "err2": e["gen_err2"][:300], "names": [x["name"] for x in files],
                           "sha1": [x["sha1"] for x in files], "sha2": [x["sha2"] for x in files],
+                          "multi": 1 if e.get("multi") else 0, "err3": (e.get("gen_err3") or "")[:300], "sha3": [x.get("sha3", "") for x in files],
                           "parsed": [1 if x["parse_ok"] else 0 for x in files], "compiled": 1 if e["compiled"] else 0},
                     "compile_err": e["compile_err"][:300],
                 }
@@ -63,6 +68,8 @@ def check(prop, tier, seed, replay_path=None, selftest=False, keep=False):
                 kind = "duplicate-output-name"
             elif o["sha1"] != o["sha2"]:
                 kind = "nondeterministic"
+            elif o["multi"] and (o["err3"] or o["sha3"] != o["sha1"]):
+                kind = "depends-on-co-generated-files"
             elif not all(o["parsed"]):
                 kind = "unparsable-go"
             elif not o["compiled"]:
